@@ -128,6 +128,9 @@ structure FiniteTable (inp : RunInput) (N : Nat) : Prop where
   rt : ∀ n, ∀ d ∈ (inp.calcRes n).tasks, d < N
   rf : ∀ n, ∀ d ∈ (inp.calcRes n).files, d < N
   rc : ∀ n, ∀ d ∈ (inp.calcRes n).calcs, d < N
+  rtF : ∀ n, ∀ d ∈ (inp.calcResFail n).tasks, d < N
+  rfF : ∀ n, ∀ d ∈ (inp.calcResFail n).files, d < N
+  rcF : ∀ n, ∀ d ∈ (inp.calcResFail n).calcs, d < N
 
 variable {inp : RunInput} {N : Nat}
 
@@ -142,21 +145,35 @@ theorem cl_lt (hF : FiniteTable inp N) {t : Name} (h : Cl inp t) : t < N := by
     · exact hF.rt _ _ h
     · exact hF.rf _ _ h
     · exact hF.rc _ _ h
+  | ofResFail _ h =>
+    rcases h with h | h | h
+    · exact hF.rtF _ _ h
+    · exact hF.rfF _ _ h
+    · exact hF.rcF _ _ h
 
-theorem addDeps_m2 (hF : FiniteTable inp N) (nd : Node) (p : Name) :
-    m2Of N (nd.addDeps (inp.calcRes p)) ≤ m2Of N nd := by
+theorem addDeps_m2R (nd : Node) (r : CalcRes) (hr : ∀ x ∈ r.calcs, x < N) :
+    m2Of N (nd.addDeps r) ≤ m2Of N nd := by
   unfold m2Of
-  have hnew : (newCalcDeps nd (inp.calcRes p)).Nodup := by
+  have hnew : (newCalcDeps nd r).Nodup := by
     unfold newCalcDeps; exact List.Nodup.sublist List.filter_sublist (dedup_nodup9 _)
-  have hmem : ∀ x ∈ newCalcDeps nd (inp.calcRes p), x < N ∧ x ∉ nd.dynCalc := by
+  have hmem : ∀ x ∈ newCalcDeps nd r, x < N ∧ x ∉ nd.dynCalc := by
     intro x hx
     simp only [newCalcDeps, List.mem_filter, decide_eq_true_eq] at hx
-    exact ⟨hF.rc p x (mem_dedup.mp hx.1), hx.2⟩
+    exact ⟨hr x (mem_dedup.mp hx.1), hx.2⟩
   have h1 := cntNot_append (N := N) _ nd.dynCalc hnew hmem
-  have h2 : ((newCalcDeps nd (inp.calcRes p)).filter (fun c => c ∉ nd.pendCalc)).length ≤
-      (newCalcDeps nd (inp.calcRes p)).length := List.length_filter_le _ _
+  have h2 : ((newCalcDeps nd r).filter (fun c => c ∉ nd.pendCalc)).length ≤
+      (newCalcDeps nd r).length := List.length_filter_le _ _
   simp only [Node.addDeps, List.length_append]
   omega
+
+theorem addDeps_m2 (hF : FiniteTable inp N) (nd : Node) (p : Name) :
+    m2Of N (nd.addDeps (inp.calcRes p)) ≤ m2Of N nd := addDeps_m2R nd _ (hF.rc p)
+
+theorem deliverF_m2 (hF : FiniteTable inp N) (ex : Bool) (pst : RS) (p : Name) (nd : Node) :
+    m2Of N (deliverF inp ex pst p nd) ≤ m2Of N nd := by
+  unfold deliverF; split
+  · exact addDeps_m2R nd _ (hF.rcF p)
+  · exact Nat.le_refl _
 
 theorem deliver_m2 (hF : FiniteTable inp N) (pst : RS) (p : Name) (nd : Node) :
     m2Of N (deliver inp pst p nd) ≤ m2Of N nd := by
@@ -175,7 +192,7 @@ theorem absorbDone_m2 (hF : FiniteTable inp N) (s : Sys) (c : Bool) : ∀ (ds : 
     split
     · exact ih nd
     · split
-      · exact Nat.le_trans (ih _) (deliver_m2 hF _ _ _)
+      · exact Nat.le_trans (ih _) (Nat.le_trans (deliverF_m2 hF _ _ _ _) (deliver_m2 hF _ _ _))
       · exact ih _
 
 theorem absorbDone_all_unfinished (s : Sys) (c : Bool) : ∀ (ds : List Name) (nd : Node),
